@@ -60,7 +60,7 @@ class Inst:
         self.eff: Effects = effects_engine(ctx)
         self.car = carriers(ctx)
         self._callers: Optional[Dict[FuncId, List[Tuple[FuncId, ast.Call]]]] = None
-        self._memo_ret: Dict[FuncId, Tuple[bool, str]] = {}
+        self._memo_ret: Dict[Tuple[FuncId, Optional[int]], Tuple[bool, str]] = {}
 
     def callers(self, fid: FuncId):
         if self._callers is None:
@@ -171,6 +171,24 @@ class Inst:
                         continue
                     if self.untemplated_guard(d, fn):
                         continue
+                    if self._reaches_only_as_none(d, e, fn):
+                        continue
+                    # `a, b = helper(...)`: the element of the helper's result that lands in this name
+                    tgt = d.targets[0] if isinstance(d, ast.Assign) and len(d.targets) == 1 else None
+                    if isinstance(tgt, ast.Tuple) and isinstance(d.value, ast.Call) and all(isinstance(x, ast.Name) for x in tgt.elts) \
+                            and [x.id for x in tgt.elts].count(e.id) == 1 and not self.is_primitive(d.value, mi, ci, fn):
+                        k = [x.id for x in tgt.elts].index(e.id)
+                        callees = [c for c in self.eff.resolve_call(d.value, mi, ci, fn) if c in self.eff.funcs]
+                        if callees and all(self._tuple_returns(c, len(tgt.elts)) for c in callees):
+                            bad = None
+                            for c in callees:
+                                ok, why = self.returns_inst(c, stack, index=k)
+                                if not ok:
+                                    bad = why
+                                    break
+                            if bad is not None:
+                                return False, f"{e.id} = element {k} of {unparse(d.value)[:50]} <- {bad}"
+                            continue
                     ok, why = self.inst(d.value, fn, mi, ci, depth - 1, stack)
                     if not ok:
                         return False, f"{e.id} = {unparse(d.value)[:50]} <- {why}"
@@ -206,9 +224,36 @@ class Inst:
             return self.inst(e.value, fn, mi, ci, depth - 1, stack)
         return False, type(e).__name__
 
-    def returns_inst(self, fid: FuncId, stack=()) -> Tuple[bool, str]:
-        if fid in self._memo_ret:
-            return self._memo_ret[fid]
+    def _tuple_returns(self, fid: FuncId, n: int) -> bool:
+        mi, fn, ci = self.eff.funcs[fid]
+        rets = [r for r in walk_no_nested(fn) if isinstance(r, ast.Return) and r.value is not None]
+        return bool(rets) and all(isinstance(r.value, ast.Tuple) and len(r.value.elts) == n for r in rets)
+
+    @staticmethod
+    def _reaches_only_as_none(d, use, fn) -> bool:
+        """`X = <anything>` followed, in the same block, by `if X is not None: X = f(X)` (no else): past that statement the first
+        value survives only when it is None."""
+        if not (isinstance(d, ast.Assign) and len(d.targets) == 1 and isinstance(d.targets[0], ast.Name)):
+            return False
+        x = d.targets[0].id
+        blk = parent(d)
+        for field in ("body", "orelse", "finalbody"):
+            sts = getattr(blk, field, None)
+            if not isinstance(sts, list) or d not in sts:
+                continue
+            for st in sts[sts.index(d) + 1:]:
+                if st.lineno > getattr(use, "lineno", 0):
+                    break
+                if isinstance(st, ast.If) and not st.orelse and unparse(st.test).replace(" ", "") in (f"{x}isnotNone", x, f"{x}!=None") \
+                        and any(isinstance(a, ast.Assign) and len(a.targets) == 1 and isinstance(a.targets[0], ast.Name) and a.targets[0].id == x for a in st.body) \
+                        and not any(isinstance(q, (ast.Return, ast.Continue, ast.Break)) for b_ in st.body for q in ast.walk(b_)) \
+                        and not any(n is use for n in ast.walk(st)):
+                    return True
+        return False
+
+    def returns_inst(self, fid: FuncId, stack=(), index: Optional[int] = None) -> Tuple[bool, str]:
+        if (fid, index) in self._memo_ret:
+            return self._memo_ret[(fid, index)]
         if fid in stack:
             return True, "recursive"
         mi, fn, ci = self.eff.funcs[fid]
@@ -219,11 +264,12 @@ class Inst:
             if isinstance(r, ast.Return) and r.value is not None:
                 if self.untemplated_guard(r, fn):
                     continue
-                ok, why = self.inst(r.value, fn, mi, ci, 24, stack + (fid,))
+                val = r.value.elts[index] if index is not None and isinstance(r.value, ast.Tuple) and index < len(r.value.elts) else r.value
+                ok, why = self.inst(val, fn, mi, ci, 24, stack + (fid,))
                 if not ok:
-                    res = (False, f"{fid.qual} returns {unparse(r.value)[:40]} <- {why}")
+                    res = (False, f"{fid.qual} returns {unparse(val)[:40]} <- {why}")
                     break
-        self._memo_ret[fid] = res
+        self._memo_ret[(fid, index)] = res
         return res
 
     def param_inst(self, fn, mi, ci, pname: str, depth, stack) -> Tuple[bool, str]:
@@ -1444,13 +1490,50 @@ def rule_nested_forms(ctx, rep: Report, rid="S2"):
     if not rec:
         raise AnalysisError("instantiate_type: recursive walk over the template arguments not found")
     txt = " ".join(unparse(f) for f in rec)
+    # a bare parameter: the walk is run (the analyser's own interpreter) on sample argument trees; every node spelled `T` / `U`
+    # has been renamed afterwards and no other node has been touched
+    from .rules_matlab import SampleObj, _PathEval, _Raised, mini_exec
+    ps = func_params(fn)
+    bare_ok, bare_detail = None, ""
+
+    def ty(name, *args):
+        return SampleObj(name=name, instantiations=list(args), namespaces=[])
+    trees = [("vector<T>", lambda: ty("vector", ty("T"))), ("vector<vector<T>>", lambda: ty("vector", ty("vector", ty("T")))),
+             ("map<size_t, T>", lambda: ty("map", ty("size_t"), ty("T"))), ("map<T, size_t>", lambda: ty("map", ty("T"), ty("size_t"))),
+             ("map<size_t, vector<U>>", lambda: ty("map", ty("size_t"), ty("vector", ty("U")))),
+             ("pair<vector<size_t>, map<double, vector<T>>>", lambda: ty("pair", ty("vector", ty("size_t")), ty("map", ty("double"), ty("vector", ty("T"))))),
+             ("tuple<T, double, U, vector<T>>", lambda: ty("tuple", ty("T"), ty("double"), ty("U"), ty("vector", ty("T"))))]
+    if len(rec) == 1 and len(func_params(rec[0])) == 1 and len(ps) >= 3:
+        left = []
+        try:
+            for label, mk in trees:
+                root = mk()
+
+                def nodes(n):
+                    yield n
+                    for c in n["instantiations"]:
+                        yield from nodes(c)
+                before = [(n, n["name"]) for n in nodes(root)]
+                mini_exec(rec[0], {func_params(rec[0])[0]: root, ps[1]: ["T", "U"], ps[2]: [ty("Pose3"), ty("double")]}, budget=4000,
+                          functions={rec[0].name: rec[0]})
+                for n, was in before:
+                    now = n["name"]
+                    if was in ("T", "U") and now == was:
+                        left.append(f"{label}: `{was}` left as written")
+                    elif was not in ("T", "U") and now != was:
+                        left.append(f"{label}: `{was}` renamed")
+            bare_ok, bare_detail = not left, "; ".join(left[:3])
+        except (_PathEval.Unknown, _Raised) as ex:
+            bare_ok = None
+    if bare_ok is None:
+        bare_ok = any(isinstance(c, ast.Compare) and isinstance(c.ops[0], ast.In) and unparse(c.left).endswith(".name") for f in rec for c in ast.walk(f))
     forms = {
-        "a bare parameter (std::vector<std::vector<T>>)": any(
-            isinstance(c, ast.Compare) and isinstance(c.ops[0], ast.In) and unparse(c.left).endswith(".name") for f in rec for c in ast.walk(f)),
+        "a bare parameter (std::vector<std::vector<T>>)": bare_ok,
         "the reserved name This (std::vector<This>, std::vector<std::vector<This::K>>)": "'This'" in txt,
         "a scoped parameter (std::vector<T::Value>)": ".namespaces" in txt,
     }
     witnesses = {
+        "a bare parameter (std::vector<std::vector<T>>)": bare_detail,
         "the reserved name This (std::vector<This>, std::vector<std::vector<This::K>>)":
             "`template<T={ns::V}> class C { void f(std::vector<This> x); }` keeps `std::vector<This>`; below the first level `This::K` is kept as well",
         "a scoped parameter (std::vector<T::Value>)":
